@@ -55,6 +55,11 @@ CHECKS = {
             "A template program with 17 slots (int/float/string/map/struct/array literals, src/help/outname/special strings, resource numbers, keywords): base, every 1-slot and every 2-slot substitution from per-slot edge-value lists; every optional clause removed singly and in pairs; a comment before each of 22 element positions singly and in pairs, dangling before every closing bracket and inside collections/resource/modifier lists; all 24 orders of four calls; all .mro fixtures of the repository; six include graphs (~4600 accepted sources). Oracle: formatted text parses; an independent reflective canonical rendering of the parsed trees (no positions, numbers by value, calls as a set, modifiers by effect) is equal; comments kept (exactly once unless dangling); format is a fixed point; compiles if the source did; the include-expanded rendering compiles alone with an equal call graph.",
             "sources outside the template/fixture families; semantic equality is judged on unchecked parse trees plus compilation, not on execution",
             "DESIGN.md 4/C09"),
+    "C10": ("exploration",
+            "explorer-owned map iteration order (mechanically rewritten range statements in syntax/refactoring/core): every single-occurrence permutation of every dynamic map iteration, byte-compare of all outputs",
+            "For ~90 programs (hand-written wide-literal, multi-split, typed-map-fork, merge and multi-error programs; programs of the runtime families; the repository's fixtures) the compile error text, formatted text and serialized call graph are recomputed with each single dynamic map-iteration occurrence (>=2 keys; ~4000 occurrences) reversed and rotated; for the runtime-family programs the whole pipestance is re-executed likewise and job names (fork ids), per-fork _invocation files, job arguments and final outputs compared; all outputs must be byte-identical to the default-order run, and the default-order outputs must agree between worker processes.",
+            "map iteration is modelled as a permutation of a key snapshot; two simultaneous permutations only in thorough for pairs within one operation (not built: single-occurrence only); address- or time-derived nondeterminism is covered only by the cross-process digest comparison",
+            "DESIGN.md 4/C10"),
     "C15": ("exploration",
             "exhaustive site x edit-catalogue enumeration over base programs, two-sided EquivalentCall oracle plus real re-attach",
             "10 base programs (nested sub-pipelines, map calls, split stage, struct narrowing, projections, preflight, aliases, nested disabled modifiers, file types, retains) x every applicable site of 11 semantic edit kinds (rename call, change literal/top argument, add stage input/output, retype parameter, toggle split, retarget return, change/remove/add disabled) and 6 cosmetic kinds (reorder declarations, rename file type, add unused declarations, reformat, comments, whitespace): EquivalentCall must be false both ways for semantic and true both ways for cosmetic edits; the first site of each (base, kind) also goes through InvokePipeline + ReattachToPipestance(checkSrc) on a real pipestance directory; attach while locked must be refused and after unlock accepted.",
